@@ -19,3 +19,18 @@ def seq_extra(corr, oracle, text_filter=None, quick_hist=100, thorough_hist=2000
             (o_fail if kind.startswith("ORACLE") else c_fail).append((kind + " " + t, lines))
         return o_fail, c_fail
     return run
+
+
+def seq_suites(plans, corr, oracle):
+    """plans = [quick plan dict, thorough plan dict] of one seqrun suite."""
+    def run(ctx):
+        p = plans[0] if ctx.quick else plans[1]
+        o_fail, c_fail = [], []
+        m, summ, _ = seqcommon.run_suite(ctx, p["suite"], histories=p.get("histories", 100), ops=p.get("ops", 150),
+                                         extra_args=p.get("extra_args", ()))
+        ctx.suites.append(seqcommon.suite_record("seq/" + p["suite"], p.get("desc", "sequential histories with crash+recover at quiescent points"), summ))
+        o, c = seqcommon.select(m, corr=corr, oracle=oracle)
+        for kind, (t, lines) in seqcommon.shrink_groups(ctx, o + c).items():
+            (o_fail if kind.startswith("ORACLE") else c_fail).append((kind + " " + t, lines))
+        return o_fail, c_fail
+    return run
